@@ -311,6 +311,18 @@ where
         // note that the coefficients of the remainder polynomial are sent in reverse order and
         // this simplifies evaluation using Horner's method.
         let remainder_poly = channel.read_remainder()?;
+
+        // make sure the remainder polynomial is the one the prover committed to before the
+        // query positions were drawn; the commitment to the remainder (the hash of its
+        // coefficients) is the last of the layer commitments
+        let remainder_commitment = self
+            .layer_commitments
+            .get(self.options.num_fri_layers(self.domain_size))
+            .ok_or(VerifierError::RemainderCommitmentMismatch)?;
+        if <H as ElementHasher>::hash_elements(&remainder_poly) != *remainder_commitment {
+            return Err(VerifierError::RemainderCommitmentMismatch);
+        }
+
         if remainder_poly.len() > max_degree_plus_1 {
             return Err(VerifierError::RemainderDegreeMismatch(max_degree_plus_1 - 1));
         }
